@@ -101,7 +101,7 @@ for op in OP:
             if sink == 'forget':
                 props = ['C07', 'C03']
             if sink == 'drop':
-                props = props + ['C06']
+                props = props + ['C06', 'C13']
             quick = sz == 'e8' and (sink in ('drop', 'forget') or op == 'remove') or (sz == 'z0' and op == 'remove' and sink == 'drop')
             drop = 'false' if sink == 'downcast' else 'true'
             add('k2_remove', '%s_%s_%s' % (op, sink, sz), 'remove_erased::<%s>(%s, %s, %s)' % (TY[sz], OP[op], SINK[sink], drop),
